@@ -279,6 +279,33 @@ structure IPExt (ε β ι : Type) where
   decode : β → ι × Option Err
   contains : ι → Nat → Bool
 
+/-! ### cmd/keymasterd `postAuthSSHCertHandler` -/
+
+/-- which CA key signs: the main signer or the Ed25519 one -/
+inductive SignerKind
+  | unset | main | ed25519
+deriving DecidableEq, Repr
+
+/-- effects of the SSH issuing handler: a refusal, a call of the certificate generator (user, submitted key text, signer,
+lifetime), a certificate handed to the audit stream, and the start of the 200 response -/
+inductive SshEffect
+  | fail (status : Int)
+  | sign (user : Str) (pubkey : Str) (signer : SignerKind) (duration : Int)
+  | publish (cert : Nat)
+  | respond
+deriving DecidableEq, Repr
+
+/-- externals: the uploaded file and its text, `getValidSSHPublicKey` (parse + strength test, property C10; the parsed
+key is opaque), the key's type string, `ssh.NewSignerFromSigner`, the extension expansion, the generator's result -/
+structure SshIssueExt where
+  formFile : Nat × Nat × Option Err
+  fileText : Nat → Str
+  validKey : Str → Nat × Option Err × Option Err
+  keyType : Nat → Str
+  newSigner : SignerKind → SignerKind × Option Err
+  expand : Str → Nat × Option Err
+  sign : Str → Str → SignerKind → Int → Str × Nat × Option Err
+
 /-! ### cmd/keymasterd `consumeLoginChallenge` -/
 
 /-- `localUserData`: the pending challenge of a user; the two challenge pointers are compared by identity (numbers
